@@ -10,5 +10,8 @@ def run(tier, seed):
                 'leaves': 'symbolic i64 / bool; strings concrete'}
     c.outside = ['graphs with more than 3 container cells', 'two distinct cyclic values compared (non-terminating by definition)']
     c.run_family('equality', ts, ('exit', 'stdout', 'stderr-empty', 'message', 'panic', 'hang'), equality.role, par_templates=4, par_paths=4)
+    from families import seq
+    bs = [t for t in seq.templates(tier, seed) if t['name'].startswith(('mb-index-eq', 'mb-byte-pieces'))]
+    c.run_family('byte-strings', bs, ('exit', 'stdout', 'stderr-empty', 'panic', 'hang'), seq.role)       # equal byte sequences are ==, different ones are not (also pieces that are not UTF-8 text)
     c.run_random(('exit', 'stdout', 'stderr-empty', 'panic', 'hang'))
     return c.finish()
